@@ -1084,6 +1084,10 @@ func (fc *FuncCtx) implements(a *Term, it types.Type) *Term {
 	}
 	name := "implements_" + sanitize(u.typeName(it))
 	fc.d.Fun(name, []Sort{SInt}, SBool)
+	if fc.implFuns == nil {
+		fc.implFuns = map[string]*types.Interface{}
+	}
+	fc.implFuns[name] = iface
 	ext := App(SBool, name, fc.anyTypeID(a))
 	inPkg := false
 	if n, ok := it.(*types.Named); ok && n.Obj().Pkg() == u.tpkg {
